@@ -108,6 +108,12 @@ def check(run):
     calls = [n for n in own_nodes(sc.node) if isinstance(n, ast.Call) and prog.callee(mm, sc, n).func is sn]
     need(len(calls) == 1, "anchor: scan calls scan_node once")
     root = common.call_arg(calls[0], sn, 1, sn.params[1])
+    if isinstance(root, ast.Name):
+        # root = Node(...); return self.scan_node(root, ...): a single-assignment temporary, not touched in between
+        env0 = common.block_env(sc.body, common.enclosing_stmt(calls[0])) or {}
+        uses = [x for x in ast.walk(sc.node) if isinstance(x, ast.Name) and x.id == root.id]
+        if root.id in env0 and len(uses) == 2:
+            root = env0[root.id]
     ok_ctor = isinstance(root, ast.Call) and prog.is_node_ctor(mm, sc, root)
     run.ob("R1-root", "multidecoder.scan/root-is-fresh-node", ok_ctor, f"{mm.rel}:{sc.lineno}", "scan hands scan_node a freshly constructed Node",
            f"passes `{norm_src(root) if root is not None else None}`", mech="constructor binding")
@@ -133,7 +139,11 @@ def check(run):
                     "start": "root start is 0", "end": "root end is len(input)", "parent": "root has no parent", "children": "root starts without children"}[k],
                    f"{k} = `{norm_src(e) if isinstance(e, ast.AST) else e}`", mech="constructor binding")
     rets = [n for n in own_nodes(sc.node) if isinstance(n, ast.Return)]
-    run.ob("R1-root", "multidecoder.scan/returns-scan_node-result", len(rets) == 1 and rets[0].value is calls[0], f"{mm.rel}:{sc.lineno}",
+    ret_ok = len(rets) == 1 and rets[0].value is calls[0]
+    if len(rets) == 1 and isinstance(rets[0].value, ast.Name):
+        env1 = common.block_env(sc.body, rets[0]) or {}
+        ret_ok = env1.get(rets[0].value.id) is calls[0]
+    run.ob("R1-root", "multidecoder.scan/returns-scan_node-result", ret_ok, f"{mm.rel}:{sc.lineno}",
            "scan returns what scan_node returns", "", mech="return-shape match")
 
     # ------------------------------------------------------------------ R2 / R6 engine
